@@ -1584,11 +1584,15 @@ func (sc *serverConn) closeStream(st *stream, err error) {
 		}
 	}
 	if p := st.body; p != nil {
-		// Return any buffered unread bytes worth of conn-level flow control.
-		// See golang.org/issue/16481
+		// Discard any buffered unread bytes and return their worth of
+		// conn-level flow control. See golang.org/issue/16481.
+		//
+		// The pipe is broken rather than closed so that the handler can no
+		// longer read the discarded bytes: a later read of them would be
+		// refunded a second time by noteBodyRead, inflating the connection
+		// window beyond its configured size.
+		p.BreakWithError(err)
 		sc.sendWindowUpdate(nil, p.Len())
-
-		p.CloseWithError(err)
 	}
 	if e, ok := err.(StreamError); ok {
 		if e.Cause != nil {
@@ -1753,7 +1757,7 @@ func (sc *serverConn) processData(f *DataFrame) error {
 		}
 		sc.sendWindowUpdate(nil, int(f.Length)) // conn-level
 
-		st.body.CloseWithError(fmt.Errorf("sender tried to send more than declared Content-Length of %d bytes", st.declBodyBytes))
+		st.body.BreakWithError(fmt.Errorf("sender tried to send more than declared Content-Length of %d bytes", st.declBodyBytes))
 		// RFC 7540, sec 8.1.2.6: A request or response is also malformed if the
 		// value of a content-length header field does not equal the sum of the
 		// DATA frame payload lengths that form the body.
